@@ -1,5 +1,5 @@
 """C02 — per-worker concurrency never exceeds max_concurrent_connections."""
-from props.srvlib import COMMON_META, gen_scripts, make_stream, bfs_stream, c02_pred, saturates
+from props.srvlib import COMMON_META, gen_scripts, make_stream, bfs_stream, bld_stream, c02_pred, saturates
 
 META = dict(COMMON_META)
 META.update({
@@ -28,4 +28,5 @@ def streams(ctx):
     cases = gen_scripts(ctx, n, ["e", "ye", "ye", "cye", "ciye", "dye", "cidye", "dy"], ls=(1, 2, 3, 4))
     return [bfs_stream(ctx, c02_pred, "dc", saturates), make_stream("srv", cases, c02_pred,
                         "%d generated fault-free scripts + corpus; every snapshot compared, in-progress <= L checked on the implementation" % n,
-                        saturates)]
+                        saturates),
+            bld_stream(ctx, ("C02",), ["", "", "c"], 64, 1500, ls=(1, 1, 2, 3, 4))]
